@@ -94,13 +94,13 @@ def run(ck):
         n = len(g["vals"])
         perms = [rng.sample(range(n), n) for _ in range(3)]
         groups.append(part_group(g["vals"], g["k"], rng, perms))
-    Q = scope.q_scope(ck, 4, 6, [6])
+    Q = scope.q_scope(ck, 4, 6, [6]) + scope.q_scope(ck, 4, 5, [5])
     for g in Q:
         if max(g["vals"]) <= g["C"] and min(g["vals"]) >= 1:
             n = len(g["vals"])
             perms = [p for p in itertools.permutations(range(n)) if list(p) != list(range(n))][:5]
             groups.append(pack_group(g["vals"], g["C"], rng, perms, cover=False))
-    for g in scope.q_scope(ck, 4, 8, [6], minv=1):
+    for g in scope.q_scope(ck, 4, 8, [6], minv=1) + scope.q_scope(ck, 4, 7, [5, 7], minv=1):
         n = len(g["vals"])
         perms = [p for p in itertools.permutations(range(n)) if list(p) != list(range(n))][:5]
         groups.append(pack_group(g["vals"], g["C"], rng, perms, cover=True))
